@@ -884,8 +884,8 @@ def clause_commit_per_key(R, F):
     for c in iso:
         a = origin(c.fn, c.args[1])
         args.add(show(a))
-    R.ob(len(iso) >= 2 and all(("block_number" in a) for a in args), "GUARD", fn.where(), "GUARD|table.commit|is_old-pair",
-         "the two uses of is_old in commit (history row deletion, cache eviction) do not test the same block number: %s" % sorted(args),
+    R.ob(len(iso) >= 1 and all(("block_number" in a) for a in args), "GUARD", fn.where(), "GUARD|table.commit|is_old-pair",
+         "the use(s) of is_old in commit (history row deletion, and cache eviction where present) do not test the block number being committed: %s" % sorted(args),
          sample={"rule": "GUARD pairing", "fn": "table.commit", "is_old_args": sorted(args)})
     dels = [c for c in hist if c.method == "delete"]
     for c in dels:
